@@ -33,7 +33,7 @@ fixed('C02', 'b0251cf', 'same defect seen as language loss: the merged levels we
 finding('C15', 'final-markov-preterminal', 'quit inside the Markov level of the FINAL pre-terminal of the run: queue is empty afterwards, the "Done" path returns without saving, --load restarts the session from the beginning (F-C15b)', {'ruleset': 'base structures D1/M/O1 where the least probable pre-terminal is an OMEN level', 'cut': 'any j inside that level'}, 'F-C15b')
 
 finding('C12', 'final-markov-preterminal', 'same defect as F-C15b seen from C12: an explicit quit that lands inside the Markov level of the final pre-terminal stops the run without the session state being saved', {'schedule': 'q delivered (or its flag set) while the last pre-terminal, an OMEN level, is being generated'}, 'F-C15b')
-finding('C05', 'len-changing-lower', 'password containing U+0130 (the only character whose lower() is longer than itself): e-mail / website / alpha detectors index the original string with offsets computed on the lower-cased copy -> empty or mis-aligned segments, wrong length labels, bogus multi-word splits (F-C05)', {'password': '\u0130@a.comx', 'segments': "[('\u0130@a.com','E'),('','O0')]"}, 'F-C05')
+fixed('C05', 'c17c8e5', 'password containing U+0130 (the only character whose lower() is longer than itself): e-mail / website / alpha detectors sliced the original string with offsets computed on the lower-cased copy -> empty or mis-aligned segments, wrong length labels, bogus multi-word splits', {'password': '\u0130@a.comx', 'segments': "[('\u0130@a.com','E'),('','O0')]"}, 'F-C05')
 finding('C05', 'keyboard-walk-recursion-depth', 'password made of ~1000 separate keyboard walks: detect_keyboard_walk recurses once per walk and overflows the interpreter stack -> RecursionError aborts parsing (F-C05b); only the thorough tier generates such input', {'password': "'1qaz2wsx3edc4rfv' * 250"}, 'F-C05b')
 
 finding('C13', 'non-reversible-case', 'candidate containing a letter whose case mapping is not one-to-one (title-case U+01C5, capital sharp s U+1E9E, ...): the scorer lower-cases + masks and returns p > 0, the guesser can only emit lower() or upper() of the stored word, never the candidate itself (F-C13)', {'training': ['\u01c5ungla'], 'candidate': '\u01c5ungla', 'score': '> 0', 'guesser': 'emits \u01c6ungla only'}, 'F-C13')
